@@ -346,7 +346,7 @@ def _strip_generics(head):
 
 # --------------------------------------------------------------------------- text-level rules on one item
 
-ATTR_DROP = ("inline", "allow", "derive", "must_use", "doc", "cold", "target_feature", "deprecated", "cfg_attr",
+ATTR_DROP = ("inline", "allow", "derive", "must_use", "doc", "cold", "target_feature", "deprecated", "cfg_attr", "repr",
              "expect", "track_caller", "rustfmt")
 
 
@@ -546,7 +546,7 @@ class Item:
                 continue
             frm, to = rw["from"], rw["to"]
             cnt = rw.get("count", 1)
-            pat = re.compile(r"\s*".join(re.escape(p) for p in _ws_split(frm)))
+            pat = _anchor_re(frm)
             ms = list(pat.finditer(self.text))
             if len(ms) != cnt:
                 raise ExtractError(f"{self.path}::{self.name}: rewrite anchor `{_short(frm)}` found {len(ms)} times, "
@@ -659,7 +659,7 @@ def _loop_inserts(item, body_text, loops):
 
 def _hint_insert(item, body_text, h):
     anchor = h.get("after") or h.get("before")
-    pat = re.compile(r"\s*".join(re.escape(p) for p in _ws_split(anchor)))
+    pat = _anchor_re(anchor)
     ms = list(pat.finditer(body_text))
     nth = h.get("nth")
     if nth is None and len(ms) != 1:
@@ -674,6 +674,19 @@ def _hint_insert(item, body_text, h):
 
 
 # --------------------------------------------------------------------------- small helpers
+
+def _anchor_re(text):
+    """whitespace-insensitive, token-exact pattern for an anchor / rewrite source text"""
+    parts = []
+    for t in tokenize(text):
+        if t.kind == "ws":
+            continue
+        e = re.escape(t.text)
+        if t.kind in ("ident", "num"):
+            e = r"(?<![A-Za-z0-9_])" + e + r"(?![A-Za-z0-9_])"
+        parts.append(e)
+    return re.compile(r"\s*".join(parts))
+
 
 def _ws_split(s):
     """split an anchor into tokens so that matching ignores whitespace differences"""
